@@ -23,7 +23,7 @@ def run(ctx):
         evaluations=meta["plans"], distinct_nontrivial=meta["plans_with_fault_in_weight_section"],
         traces_validated_against_impl=st.get("segs", 0),
         rule="for every n in 0..%d and weight function in {i+j, negative, +-(2^31-1), 2^40+i-j, 10i+j}: a fault-free run learns the number W of Write "
-             "calls, then every position 1..W+1 x {fail (0 bytes+error), short (half+error)} x {transient, permanent} is executed; every Write, every "
+             "calls, then every position 1..W+1 x {fail (0 bytes+error), short (half+error), full (all bytes+error)} x {transient, permanent} is executed; every Write, every "
              "weights(i,j) call and the result are validated by TspLibTrace.tla (writer model of TspLib.tla; tokens of the accepted bytes, line by "
              "line, against the LOWER_DIAG_ROW layout). Plus fault-free and spot-fault runs for n up to 90 (200 thorough). Non-trivial = plans whose fault lies inside the weight section." % (9 if ctx.thorough else 6),
         samples=["LIB(n=3,w=sum,at=4,kind=fail,perm=false)", "LIB(n=6,w=huge,at=17,kind=short,perm=true)"],
